@@ -62,8 +62,10 @@ ASSUMPTIONS = [
     "native tolerance = 1 cm + 8 x 2^-53 x kappa, kappa = measured sensitivity of the REFERENCE state to relative perturbations of n, e, B* "
     "(sum of |dr| per unit relative perturbation): round-off of an equally valid evaluation order; negligible (< 1 mm) except where the "
     "drag series is extrapolated to a diverging orbit (B* = 1e-2, 30 d: reference radius up to 1e6 km), observed |dr| there = 3.2 x 2^-53 x kappa",
-    "wrapper tolerance = 50 us x max(|v|, finite-difference |dr/dt| of the reference over +-50 us) + 1 um (likewise |a| for the velocity): "
-    "identical to |v| x 50 us wherever the theory is smooth; at i = 180 deg exactly SDP4's position changes 4x faster than its velocity output",
+    "wrapper tolerance = 50 us x max(|v|, L) + 1 um, L = Lipschitz constant of the reference position in time measured on the reference itself "
+    "(largest 10 us step rate over +-50 us; likewise |a| for the velocity): identical to |v| x 50 us wherever the theory is smooth; for deep-space "
+    "records at i = 180 deg exactly SDP4's position moves 4x faster than its velocity output and jumps by 0.15-0.3 m between neighbouring instants "
+    "(division by sin(pi) ~ 1e-16 in dpper; C++ and Python ports agree at identical instants)",
     "hist: os.fork() of a worker process that has imported but never executed the library gives the pristine state; a replay process is in the same state",
 ]
 NOT_COVERED = (
@@ -277,9 +279,10 @@ def judge(w, x, ref, tsince, r_ref, v_ref, t, case, sig, bc, detail):
     dv = _norm(x[3:] - np.array(v_ref))
     finite = bool(np.all(np.isfinite(x)))
     if w == "wrapper":
-        # time resolution x rate of change of the reference.  The rate is |v| (resp. |a|) for a smooth model; it is measured
-        # on the reference itself (central difference over +-50 us) because SDP4's position is not the integral of its
-        # velocity output where its lunar-solar periodics divide by sin i (i = 180 deg exactly).
+        # time resolution x Lipschitz constant of the reference in time.  The constant is |v| (resp. |a|) for a smooth model;
+        # it is measured on the reference itself (largest 10 us step rate over +-50 us) because SDP4's position is neither the
+        # integral of its velocity output nor continuous at the decimetre level where its lunar-solar periodics divide by
+        # sin i (i = 180 deg exactly).
         fd_r, fd_v = ref.rates(tsince, TIME_RES)
         acc = MU72 / rn ** 2
         rate_r, rate_v = max(vn, fd_r), max(acc, fd_v)
